@@ -43,7 +43,10 @@ NOT modelled: collapse_cost / CollapseCost (bounds collapse), `update_mask(new=T
 -/
 import MysticVerif.Proofs.Collapse
 import MysticVerif.Proofs.CollapseApply
+import MysticVerif.Proofs.CollapseMeasure
 import Mathlib.Logic.Relation
+import Mathlib.Algebra.Order.Field.Rat
+import Mathlib.Tactic.NormNum
 
 namespace MysticVerif.C11
 open MysticVerif.Clps
@@ -1105,5 +1108,134 @@ example : oneComponentOrder [(1, 3), (0, 1), (1, 2), (3, 4)] = true
     ∧ applyAs [(1, 3), (0, 1), (1, 2), (3, 4)] ([10, 11, 12, 13, 14] : List Int) = [11, 11, 11, 11, 11] := by decide
 
 end Apply
+
+/-! ## applying measure collapses (`CollapseWeight` / `CollapsePosition` -> `constraints.impose_measure`)
+
+`Collapse()` hands the dicts of `collapse_position` (`{measure: set of pairs i<j}`) and `collapse_weight`
+(`{measure: set of indices}`) to ONE `impose_measure(npts, tracking, noweight)` per round (abstract_solver.py l.849);
+inside, the position collapses (`impose_collapse`: the weight of a tracked point is moved onto the key of its group)
+run BEFORE the weight removals (`impose_unweighted`), constraints.py l.1812-1819.  Model: Model/CollapseMeasure.lean
+(`applyMeasure` = C19's `Discrete.imposeMeasure` over the groups that `Clps.connected` builds from the pairs in the
+real iteration order).  `c` is the product measure loaded from the parameter vector, `imposeOn .. c` the measure whose
+flattening the cost function receives. -/
+section MeasureApply
+open MysticVerif.Discrete
+
+variable {K : Type} [Field K] [LinearOrder K] [IsStrictOrderedRing K]
+
+/-- what is assumed of the pairs of one tracked item on a factor with `n` points: no pair joins two groups that exist
+when it is processed (as for `impose_as`, F26), indices in range, and no key of a group among its own members (all three
+are evaluated by the driver on the real iteration order of every case) -/
+def TrackOK (n : Nat) (pairs : List (Nat × Nat)) : Prop :=
+  noBridge pairs = true ∧ (∀ p ∈ pairs, p.1 < n ∧ p.2 < n) ∧ keyFree (connected pairs) = true
+
+/-- **Applied position collapse, exact (clause "... equal to its partner", measures).**  For one `impose_measure` call
+with one `CollapsePosition` dict (distinct measures), every collapsed pair `(i,j)` of measure `k` has EXACTLY equal
+positions in the measure the cost function receives - after all the weight removals of the same call, whatever
+indices they name (root of the pair, second member, unrelated) and whatever the weights are.  Hypothesis on the pair
+set as for `applied_pairs_equal_partial` (`TrackOK`; without `noBridge` the statement is false: F26 mechanism). -/
+theorem measure_applied_pairs_equal (inf : K) (r : MRound) (c : PM K)
+    (hnd : (r.tracking.map (·.1)).Nodup) (kv : Nat × List (Nat × Nat)) (hkv : kv ∈ r.tracking)
+    (m : Measure K) (hm : c[kv.1]? = some m) (hok : TrackOK m.length kv.2) (p : Nat × Nat) (hp : p ∈ kv.2) :
+    ∃ m', (imposeOn inf (trackGroups r.tracking) r.noweight c)[kv.1]? = some m' ∧ m'.length = m.length ∧
+      (mpositions m')[p.1]? = (mpositions m')[p.2]? := by
+  obtain ⟨hgok, hdis, hpair⟩ := connected_groups_ok m.length kv.2 hok.1 hok.2.1 hok.2.2
+  obtain ⟨g, hg, h1, h2⟩ := hpair p hp
+  obtain ⟨m', hm', hlen⟩ := imposeOn_factor_length inf (trackGroups r.tracking) r.noweight c kv.1 m hm
+  have hnd' : ((trackGroups r.tracking).map (·.1)).Nodup := by rw [trackGroups_keys]; exact hnd
+  have aux : ∀ q, Discrete.inGroup g q → q < m.length → (mpositions m')[q]? = (mpositions m')[g.1]? := by
+    intro q hq hqn
+    rcases hq with rfl | hq
+    · rfl
+    · obtain ⟨m'', e, _, hpos⟩ := imposeOn_member_pos inf (trackGroups r.tracking) r.noweight c hnd'
+        (kv.1, connected kv.2) (mem_trackGroups hkv) m hm hgok hdis g hg q hq hqn
+      rw [hm'] at e
+      rw [Option.some.inj e]; exact hpos
+  exact ⟨m', hm', hlen, (aux p.1 h1 (hok.2.1 p hp).1).trans (aux p.2 h2 (hok.2.1 p hp).2).symm⟩
+
+/-- **Applied weight collapse, exact (clause "parameter fixed at its target", measures: weight 0).**  For one
+`impose_measure` call with one `CollapseWeight` dict (distinct measures), every collapsed weight index of measure `k`
+has weight EXACTLY 0 in the measure the cost function receives - although the position collapses of the same call may
+have moved a partner's weight onto that very index before (dead index = root of a collapsed pair): the removals run
+LAST.  For every iteration order of the pair sets (no `noBridge` needed).  Hypotheses: the loaded factor has
+non-negative weights of positive total, the tracked pairs of that factor are in range with no key among its own
+members, and the collapse leaves at least one point of the factor alive. -/
+theorem measure_applied_weights_zero (inf : K) (r : MRound) (c : PM K)
+    (hnd : (r.noweight.map (·.1)).Nodup) (kv : Nat × List Nat) (hkv : kv ∈ r.noweight)
+    (m : Measure K) (hm : c[kv.1]? = some m) (hnn : ∀ w ∈ mweights m, 0 ≤ w) (hpos : 0 < (mweights m).sum)
+    (htr : ∀ t ∈ r.tracking, t.1 = kv.1 →
+      (∀ p ∈ t.2, p.1 < m.length ∧ p.2 < m.length) ∧ keyFree (connected t.2) = true)
+    (hout : ∃ i, i < m.length ∧ i ∉ kv.2) :
+    ∃ m', (imposeOn inf (trackGroups r.tracking) r.noweight c)[kv.1]? = some m' ∧ m'.length = m.length ∧
+      ∀ p ∈ kv.2, p < m.length → (mweights m')[p]? = some 0 := by
+  refine imposeOn_noweight_zero inf (trackGroups r.tracking) r.noweight c hnd kv hkv m hm hnn hpos ?_ hout
+  intro t ht hk g hg
+  obtain ⟨t0, ht0, rfl⟩ := of_mem_trackGroups ht
+  exact connected_groups_wf m.length t0.2 (htr t0 ht0 hk).1 (htr t0 ht0 hk).2 g hg
+
+/-- **Applied measure collapse on the parameter vector (both relations, the order the code uses).**  For every
+parameter vector `x` of at least `2*sum(npts)` numbers and one round of collapses: the constraint returns the
+flattening of a measure `c'` that reads back as `c'` with the same `npts`, and in `c'` every collapsed position pair
+is exactly equal and every collapsed weight exactly 0 (hypotheses per measure as in the two theorems above). -/
+theorem impose_measure_applied_exact (inf : K) (npts : List Nat) (r : MRound) (x : List K)
+    (hlen : 2 * npts.sum ≤ x.length)
+    (hndt : (r.tracking.map (·.1)).Nodup) (hndn : (r.noweight.map (·.1)).Nodup) :
+    ∃ c c', unflatten (x.take (2 * npts.sum)) npts = some c ∧ applyMeasure inf npts r x = some (flatten c') ∧
+      unflatten (flatten c') npts = some c' ∧
+      (∀ kv ∈ r.tracking, ∀ m, c[kv.1]? = some m → TrackOK m.length kv.2 → ∀ p ∈ kv.2,
+        ∃ m', c'[kv.1]? = some m' ∧ m'.length = m.length ∧ (mpositions m')[p.1]? = (mpositions m')[p.2]?) ∧
+      (∀ kv ∈ r.noweight, ∀ m, c[kv.1]? = some m → (∀ w ∈ mweights m, 0 ≤ w) → 0 < (mweights m).sum →
+        (∀ t ∈ r.tracking, t.1 = kv.1 →
+          (∀ p ∈ t.2, p.1 < m.length ∧ p.2 < m.length) ∧ keyFree (connected t.2) = true) →
+        (∃ i, i < m.length ∧ i ∉ kv.2) →
+        ∃ m', c'[kv.1]? = some m' ∧ m'.length = m.length ∧ ∀ p ∈ kv.2, p < m.length → (mweights m')[p]? = some 0) := by
+  obtain ⟨c, h1, h2, _, h4⟩ := imposeMeasure_eq inf npts (trackGroups r.tracking) r.noweight x hlen
+  refine ⟨c, imposeOn inf (trackGroups r.tracking) r.noweight c, h1, h4, ?_, ?_, ?_⟩
+  · have := unflatten_flatten' (imposeOn inf (trackGroups r.tracking) r.noweight c)
+    rwa [imposeOn_pts, h2] at this
+  · intro kv hkv m hm hok p hp
+    exact measure_applied_pairs_equal inf r c hndt kv hkv m hm hok p hp
+  · intro kv hkv m hm hnn hpos htr hout
+    exact measure_applied_weights_zero inf r c hndn kv hkv m hm hnn hpos htr hout
+
+/-- **The order matters (kernel-checked witness).**  Measure of three points, weights `[0, 1/2, 1/2]`, positions
+`[2, 2, 6]`; one round collapses the position pair `(0,1)` and the weight index `0` (the dead point is the root of the
+pair, its partner carries weight).  The code (positions first, weights last) returns weight 0 at index 0 and equal
+positions; with the two loops in the other order the partner's weight is moved onto the point that was just zeroed:
+weight `1/2` at the collapsed index. -/
+theorem impose_measure_other_order_witness :
+    applyMeasure (0 : ℚ) [3] ⟨[(0, [(0, 1)])], [(0, [0])]⟩ [0, 1/2, 1/2, 2, 2, 6] = some [0, 0, 1, 0, 0, 4] ∧
+    applyMeasureSwapped (0 : ℚ) [3] ⟨[(0, [(0, 1)])], [(0, [0])]⟩ [0, 1/2, 1/2, 2, 2, 6]
+      = some [1/2, 0, 1/2, 2, 2, 6] := by
+  constructor <;>
+  norm_num [applyMeasure, applyMeasureSwapped, imposeOnSwapped, trackGroups, connected, connAdd, connStep,
+    imposeMeasure, load, truncParams, unflatten, nestedSplit, compose, listOfMeasures, zipMeasure, imposeOn,
+    Discrete.collapseAt, unweightAt, imposeCollapse, imposeUnweighted, normalizeMass, collapseGroup, collapseStep,
+    imposeMean, Discrete.mean, sumL, truthy, Discrete.absR, Discrete.rebuild, flatten, mweights, mpositions, List.modify,
+    List.mapIdx_cons]
+
+/-- **Rounds are composed by overwriting (known finding F27, the code as it is).**  The constraint of an EARLIER
+round runs after the constraint of a later round (`chain(*new)(old)`).  Round 1 collapses the position pair `(0,1)`,
+a later round collapses the weight index `0`: on the same vector the composed constraint zeroes weight 0 first and
+then the older position collapse moves the partner's weight onto it - the collapsed weight is `1/2`, not 0. -/
+theorem applied_weight_reweighted_by_older_round_witness :
+    applyRounds (0 : ℚ) [3] [⟨[], [(0, [0])]⟩, ⟨[(0, [(0, 1)])], []⟩] [0, 1/2, 1/2, 2, 2, 6]
+      = some [1/2, 0, 1/2, 2, 2, 6] := by
+  norm_num [applyRounds, applyMeasure, trackGroups, connected, connAdd, connStep,
+    imposeMeasure, load, truncParams, unflatten, nestedSplit, compose, listOfMeasures, zipMeasure, imposeOn,
+    Discrete.collapseAt, unweightAt, imposeCollapse, imposeUnweighted, normalizeMass, collapseGroup, collapseStep,
+    imposeMean, Discrete.mean, sumL, truthy, Discrete.absR, Discrete.rebuild, flatten, mweights, mpositions, List.modify,
+    List.mapIdx_cons]
+
+-- non-vacuity: the hypotheses hold for the witness' round (and for a star around the middle index in both orders);
+-- a triangle iterated as (1,2),(0,2),(0,1) puts the key 1 among its own members
+example : TrackOK 3 [(0, 1)] ∧ (∃ i, i < 3 ∧ i ∉ [0]) := by
+  refine ⟨⟨by decide, by decide, by decide⟩, 1, by decide, by decide⟩
+example : TrackOK 4 [(1, 2), (1, 3), (0, 1)] ∧ TrackOK 4 [(0, 1), (1, 3), (1, 2)] := by
+  refine ⟨⟨by decide, by decide, by decide⟩, ⟨by decide, by decide, by decide⟩⟩
+example : keyFree (connected [(1, 2), (0, 2), (0, 1)]) = false ∧ keyFree (connected [(0, 1), (0, 2), (1, 2)]) = true := by
+  decide
+
+end MeasureApply
 
 end MysticVerif.C11
